@@ -39,6 +39,16 @@ Theorem C14_filter_exact : forall refs art d,
 Proof. exact filter_referrers_spec. Qed.
 Print Assumptions C14_filter_exact.
 
+(* the entries of the updated index are old entries or the descriptors handed in by
+   push, unchanged; the artifact type indexReferrersForPush puts into such a
+   descriptor is the one a registry with the Referrers API lists *)
+Theorem C14_entries_origin : forall d old cs,
+  In d (spec_apply old cs) -> In d old \/ In (Add d) cs.
+Proof. exact spec_apply_origin. Qed.
+Theorem C14_equals_api : forall k art cfg, referrer_art k art cfg = api_art k art cfg.
+Proof. exact referrer_art_api. Qed.
+Print Assumptions C14_equals_api.
+
 (* every interleaving of any number of callers on one tag: at most one caller is
    between prepare and complete, it holds the main status exclusively, the Pool
    entry's reference count is the number of callers inside updateReferrersIndex
